@@ -40,7 +40,7 @@ def digitChar (upper : Bool) (d : Nat) : Char :=
 /-- `integer_to_radix_//3`: the digits of `n` in radix `r`, least significant first
     (`M is I0 mod R, I is I0 // R`, stop at 0). -/
 def digitsLE (r n : Nat) : List Nat :=
-  if h : n = 0 ∨ r < 2 then [] else n % r :: digitsLE r (n / r)
+  if _h : n = 0 ∨ r < 2 then [] else n % r :: digitsLE r (n / r)
 termination_by n
 decreasing_by exact Nat.div_lt_self (by omega) (by omega)
 
@@ -380,57 +380,91 @@ def takeNum (spec : NumSpec) (args : List Arg) : Option (R Int × List Arg) :=
     | _ => some (.error .unspec, as)
   | .star, [] => none
 
+/-- what one directive does in phase 1. -/
+inductive Step where
+  | push (e : Elem) (rest : List Arg)          -- an element is added to the current cell
+  | skip (rest : List Arg)                     -- `~i`
+  | close (to : ToSpec) (nl : Option Nat) (rest : List Arg)
+      -- the current cell is closed (`nl = some k`: `cell(Tab,Tab,Es)`, k newlines, column 0)
+  | err (e : Err)
+  deriving Repr, Inhabited
+
+/-- `~w ~q ~a ~s`: the element for the argument; `none` = `~i` (the argument is skipped). -/
+def plainElem (c : Char) (a : Arg) : Option Elem :=
+  if c == 'w' then some (.goal (.w a))
+  else if c == 'q' then some (.goal (.q a))
+  else if c == 'a' then some (.goal (.a a.t))
+  else if c == 's' then some (.goal (.s a.t))
+  else none
+
+/-- the numeric directives that take no further argument: `~Nn` (fails for N < 0), `~N|`, `~N+`. -/
+def numClose (c : Char) (n : Int) : Option (R (ToSpec × Option Nat)) :=
+  if c == 'n' then
+    (if n < 0 then some (.error .fail) else some (.ok (.same, some n.toNat)))     -- `n_newlines//1`
+  else if c == '|' then some (.ok (.abs n, none))
+  else if c == '+' then some (.ok (.rel n, none))
+  else none
+
+/-- the numeric directives that format the next argument. -/
+def numGoal (c : Char) (n : Int) (t : Term) : Option Goal :=
+  if c == 'd' then some (.d n t)
+  else if c == 'D' then some (.sep ',' n t)
+  else if c == 'U' then some (.sep '_' n t)
+  else if c == 'L' then some (.l n t)
+  else if c == 'f' then some (.f n t)
+  else if c == 'r' then some (.radix false n t)
+  else if c == 'R' then some (.radix true n t)
+  else none
+
+/-- one clause of `cells//5`: the token, the format string from the token on, the arguments. -/
+def step (tok : Tok) (src : List Char) (args : List Arg) : Step :=
+  match tok with
+  | .text cs => .push (.chars cs) args
+  | .tilde => .push (.chars ['~']) args
+  | .plain c =>
+    match args with
+    | [] => .err (directiveErr src args)
+    | a :: as =>
+      match plainElem c a with
+      | some e => .push e as
+      | none => .skip as                                               -- ~i
+  | .nl1 => .close .same (some 1) args
+  | .fill c => .push (.glue c) args
+  | .colHere => .close .width none args
+  | .num spec c =>
+    match takeNum spec args with
+    | none => .err (directiveErr src args)
+    | some (.error e, _) => .err e
+    | some (.ok n, as) =>
+      match numClose c n with
+      | some (.error e) => .err e
+      | some (.ok (sp, nl)) => .close sp nl as
+      | none =>
+        match as with
+        | [] => .err (directiveErr src args)
+        | a :: as' =>
+          match numGoal c n a.t with
+          | some g => .push (.goal g) as'
+          | none => .err (directiveErr src args)
+  | .bad => .err (directiveErr src args)
+
+/-- `cells//5`: `es` is the (reversed) list of elements of the cell under construction. -/
 def cells : List (Tok × List Char) → List Arg → List Elem → R (List Cell)
   | [], args, es =>
     if args.isEmpty then .ok [.cell .same es.reverse]
     else .error (.dom "empty_list" (Term.ofList (args.map (·.t))))
-  | (.text cs, _) :: ts, args, es => cells ts args (.chars cs :: es)
-  | (.tilde, _) :: ts, args, es => cells ts args (.chars ['~'] :: es)
-  | (.plain c, src) :: ts, args, es =>
-    match args with
-    | [] => .error (directiveErr src args)
-    | a :: as =>
-      if c == 'w' then cells ts as (.goal (.w a) :: es)
-      else if c == 'q' then cells ts as (.goal (.q a) :: es)
-      else if c == 'a' then cells ts as (.goal (.a a.t) :: es)
-      else if c == 's' then cells ts as (.goal (.s a.t) :: es)
-      else cells ts as es                                             -- ~i
-  | (.nl1, _) :: ts, args, es => do
-    let rest ← cells ts args []
-    .ok (.cell .same es.reverse :: .newlines 1 :: rest)
-  | (.fill c, _) :: ts, args, es => cells ts args (.glue c :: es)
-  | (.colHere, _) :: ts, args, es => do
-    let rest ← cells ts args []
-    .ok (.cell .width es.reverse :: rest)
-  | (.num spec c, src) :: ts, args, es =>
-    match takeNum spec args with
-    | none => .error (directiveErr src args)
-    | some (.error e, _) => .error e
-    | some (.ok n, as) =>
-      if c == 'n' then
-        if n < 0 then .error .fail                                   -- `n_newlines//1`
-        else do
-          let rest ← cells ts as []
-          .ok (.cell .same es.reverse :: .newlines n.toNat :: rest)
-      else if c == '|' then do
-        let rest ← cells ts as []
-        .ok (.cell (.abs n) es.reverse :: rest)
-      else if c == '+' then do
-        let rest ← cells ts as []
-        .ok (.cell (.rel n) es.reverse :: rest)
-      else
-        match as with
-        | [] => .error (directiveErr src args)
-        | a :: as' =>
-          if c == 'd' then cells ts as' (.goal (.d n a.t) :: es)
-          else if c == 'D' then cells ts as' (.goal (.sep ',' n a.t) :: es)
-          else if c == 'U' then cells ts as' (.goal (.sep '_' n a.t) :: es)
-          else if c == 'L' then cells ts as' (.goal (.l n a.t) :: es)
-          else if c == 'f' then cells ts as' (.goal (.f n a.t) :: es)
-          else if c == 'r' then cells ts as' (.goal (.radix false n a.t) :: es)
-          else if c == 'R' then cells ts as' (.goal (.radix true n a.t) :: es)
-          else .error (directiveErr src args)
-  | (.bad, src) :: _, args, _ => .error (directiveErr src args)
+  | (tok, src) :: ts, args, es =>
+    match step tok src args with
+    | .err e => .error e
+    | .push e as => cells ts as (e :: es)
+    | .skip as => cells ts as es
+    | .close to nl as =>
+      match cells ts as [] with
+      | .error e => .error e
+      | .ok rest =>
+        match nl with
+        | some k => .ok (.cell .same es.reverse :: .newlines k :: rest)
+        | none => .ok (.cell to es.reverse :: rest)
 
 /-! ## phase 2: rendering -/
 
